@@ -16,6 +16,7 @@ import (
 	"time"
 
 	"gorm.io/gorm"
+	"gorm.io/gorm/clause"
 
 	"verif/core"
 	"verif/recdrv"
@@ -31,10 +32,23 @@ type STag struct {
 	DeletedAt gorm.DeletedAt
 }
 
+// UTag tracks its times as unix numbers (seconds by name, milli / nano by tag): what a dry run binds for
+// them must be the number the real run sends, not the time value it was derived from.
+type UTag struct {
+	ID        int64 `gorm:"primaryKey"`
+	C1        string
+	C2        int64
+	CreatedAt int64
+	UpdatedAt int64  `gorm:"autoUpdateTime:milli"`
+	Stamp     int64  `gorm:"autoCreateTime:nano"`
+	Seen      uint32 `gorm:"autoUpdateTime"`
+}
+
 var h19, h19cfg *vdb.Handle
 
 const seed19 = `
-DELETE FROM tags; DELETE FROM others; DELETE FROM s_tags;
+DELETE FROM tags; DELETE FROM others; DELETE FROM s_tags; DELETE FROM u_tags;
+INSERT INTO u_tags(id,c1,c2,created_at,updated_at,stamp,seen) VALUES (1,'a',1,5,5000,5000000000,5),(2,'b',2,6,6000,6000000000,6);
 INSERT INTO tags(id,c1,c2,c3,c8) VALUES (3,'x',1,1.5,0),(7,'y',2,2.5,1),(9,'z',3,3.5,0);
 INSERT INTO others(tag_id,c1,c2) VALUES (3,'o',1);
 INSERT INTO s_tags(id,c1,c2,updated_at,deleted_at) VALUES (1,'a',1,'2020-01-01 00:00:00',NULL),(2,'b',2,'2020-01-01 00:00:00','2020-01-02 00:00:00');
@@ -58,7 +72,7 @@ func open19(dry bool) *vdb.Handle {
 	if err != nil {
 		panic(err)
 	}
-	if err := h.DB.AutoMigrate(&Tag{}, &Other{}, &STag{}); err != nil {
+	if err := h.DB.AutoMigrate(&Tag{}, &Other{}, &STag{}, &UTag{}); err != nil {
 		panic(err)
 	}
 	if _, err := h.SQL.Exec(seed19); err != nil {
@@ -335,12 +349,49 @@ func run19(c *core.Ctx) {
 		}
 		compare19(c, mk, nil, "soft/"+fin)
 	}
+	// model with unix-number time tracking
+	{
+		seed := c.R.U64()
+		fin := core.Pick(c.R, []string{"Create", "CreateSlice", "CreatePreset", "CreatePtrSlice", "SaveNew", "SaveExisting", "Updates", "Update", "UpdateColumn", "Upsert"})
+		mk := func() op19 {
+			return func(db *gorm.DB) (outcome, string) {
+				g := newGen(core.NewRand(seed))
+				l := g.newLeaf("c1", "string")
+				v := l.val.(string)
+				var res *gorm.DB
+				switch fin {
+				case "Create":
+					res = db.Create(&UTag{C1: v, C2: 4})
+				case "CreateSlice":
+					res = db.Create(&[]UTag{{C1: v, C2: 4}, {C1: v + "2", C2: 5, CreatedAt: 77}})
+				case "CreatePtrSlice":
+					res = db.Create(&[]*UTag{{C1: v, C2: 4}, {C1: v + "2", Stamp: 9}})
+				case "CreatePreset":
+					res = db.Create(&UTag{C1: v, CreatedAt: 11, UpdatedAt: 12, Stamp: 13, Seen: 14})
+				case "SaveNew":
+					res = db.Save(&UTag{C1: v})
+				case "SaveExisting":
+					res = db.Save(&UTag{ID: 1, C1: v})
+				case "Updates":
+					res = db.Model(&UTag{ID: 1}).Updates(UTag{C1: v, C2: 5})
+				case "Update":
+					res = db.Model(&UTag{}).Where("id = ?", 2).Update("c1", v)
+				case "UpdateColumn":
+					res = db.Model(&UTag{}).Where("id = ?", 2).UpdateColumn("c1", v)
+				case "Upsert":
+					res = db.Clauses(clause.OnConflict{UpdateAll: true}).Create(&UTag{ID: 2, C1: v})
+				}
+				return outcome{sql: res.Statement.SQL.String(), vars: res.Statement.Vars, err: res.Error, res: res}, "UTag: db." + fin
+			}
+		}
+		compare19(c, mk, nil, "unixtime/"+fin)
+	}
 }
 
 var EngineC19 = &core.Engine{
 	ID:    "C19",
 	Level: "exploration",
-	Rule: "the chains and 25 finishers of C01 (raw/named/map/struct/clause/grouped conditions, sub-queries, Select/Joins/Having/Order expressions, creates from struct/slice/map/[]map, upserts, Save, Raw/Exec) on the real columns of a seeded SQLite table, plus 11 soft-delete operations, each executed four times from identical handles and logical clocks: Session{DryRun}, Config.DryRun, ToSQL, and for real behind the recording driver; " +
+	Rule: "the chains and 25 finishers of C01 (raw/named/map/struct/clause/grouped conditions, sub-queries, Select/Joins/Having/Order expressions, creates from struct/slice/map/[]map, upserts, Save, Raw/Exec) on the real columns of a seeded SQLite table, plus 11 soft-delete operations and 10 writes of a model that tracks its times as unix numbers (seconds, milli, nano, unsigned), each executed four times from identical handles and logical clocks: Session{DryRun}, Config.DryRun, ToSQL, and for real behind the recording driver; " +
 		"distinct = (finisher, SQL verb, number of bound values, number of real statements); non-trivial = the real run sent at least one statement that was compared with the dry run's SQL and bound values",
 	Assumptions: []string{
 		"the main statement of an operation is the first prepare/exec/query event of the real run (records carry no nested association values)",
